@@ -11,7 +11,7 @@ association lists with insertion order and update-in-place (`dset`).
 No Mathlib here: everything is executable core Lean.
 -/
 
-namespace GT
+namespace GT.RepW
 
 abbrev Gen := String
 abbrev Word := List Gen
@@ -142,4 +142,4 @@ def validName (g : Gen) : Bool :=
   && g.toList.any isAsciiLetter
   && !(g ≠ lowerS g ∧ g ≠ upperS g)
 
-end GT
+end GT.RepW
